@@ -251,7 +251,7 @@ theorem C05_ifs_short_crashes (proto : Nat) (e : CT) (es : List CT) :
     MakeSlice is asked for 2^31-1 elements (allocation finding KF-C05-val-9) -/
 theorem C05_alloc_unbounded_cex : makeCount false 2147483647 0 4 = .ok 2147483647 := by decide
 
-/-- fixed (fix-7): what is allocated fits in the remaining bytes: count * header size <= bytes left -/
+/-- fixed (fix-15): what is allocated fits in the remaining bytes: count * header size <= bytes left -/
 theorem C05_alloc_bound_fixed (n : Int) (avail p cnt : Nat) (hp : 0 < p)
     (h : makeCount true n avail p = .ok cnt) : cnt * p ≤ avail := by
   unfold makeCount at h
@@ -277,7 +277,7 @@ theorem C05_map_alloc_bound_fixed (n : Int) (avail p cnt : Nat) (hp : 0 < p)
       exact (Nat.le_div_iff_mul_le (by omega)).mp hg
 
 /-- a list body that cannot hold `cnt` element headers never decodes to `ok` (each element read
-    consumes at least one header): so fix-7 never turns a successful decode into an error, it only
+    consumes at least one header): so fix-15 never turns a successful decode into an error, it only
     refuses the allocation that precedes the inevitable `unexpected eof` -/
 theorem listLoop_short_not_ok (proto : Nat) (f : Option Bytes → Outcome) (len : Nat) :
     ∀ (cnt i : Nat) (d : Bytes), d.length < cnt * hdr proto → listLoop proto f len cnt i d ≠ .ok ()
@@ -298,7 +298,7 @@ theorem listLoop_short_not_ok (proto : Nat) (f : Option Bytes → Outcome) (len 
           | crash s => simp
         · simp
 
-/-- fix-7 is conservative: whenever the fixed `makeCount` refuses a non-negative count, the code as
+/-- fix-15 is conservative: whenever the fixed `makeCount` refuses a non-negative count, the code as
     it is does not return ok either -/
 theorem C05_fix7_conservative (proto : Nat) (f : Option Bytes → Outcome) (n : Int) (d : Bytes)
     (hn : 0 ≤ n) (hrej : makeCount true n d.length (hdr proto) = .err) :
@@ -338,15 +338,12 @@ theorem C05_cex_short_interface_slice :
 theorem C05_cex_date_short :
     unmarshal false 4 (.nat .date) (.val (.sc .time)) (some [1]) = .crash ⟨.unmarshalDate, .index⟩ := by decide
 
-/-- `val 4 map(blob,int) def 00000000`: the default destination of map<blob,int> cannot be built -/
-theorem C05_cex_gotype_blob_key :
-    unmarshal false 4 (.map (.nat .blob) (.nat .int)) .deflt (some [0, 0, 0, 0]) = .crash ⟨.goType, .reflect⟩ := by
+/-- `val 4 map(blob,int) def 00000000`: the default destination of map<blob,int> cannot be built —
+an ERROR since /repo commit c637d3e (it was a reflect.MapOf panic, former finding val-5) -/
+theorem C05_gotype_blob_key_is_error :
+    unmarshal false 4 (.map (.nat .blob) (.nat .int)) .deflt (some [0, 0, 0, 0]) = .err ∧
+    unmarshal false 4 (.tuple [.map (.nat .blob) (.nat .int)]) (.val (.slice (.sc .iface))) (some []) = .err := by
   decide
-
-/-- `val 4 tuple(map(blob,int)) slice(iface) -`: the same inside a tuple, reached from Unmarshal -/
-theorem C05_cex_gotype_in_tuple :
-    unmarshal false 4 (.tuple [.map (.nat .blob) (.nat .int)]) (.val (.slice (.sc .iface))) (some [])
-      = .crash ⟨.goType, .reflect⟩ := by decide
 
 /-- `val 4 tuple(int) struct(A:int64) -`: struct field type differs from goType(int) = int -/
 theorem C05_cex_tuple_field_type :
